@@ -165,7 +165,7 @@ def run(tier, seed):
             if ci is None:
                 ok_pair = False
                 break
-            rq += [{"kind": "convert", "input": "しんくるま", "context": "Normal", "expect_text_at": (ci, rb["candidates"][ci]["text"])}, {"kind": "confirm", "session": nconv, "cid": str(ci)}]
+            rq += [{"kind": "convert", "input": "しんくるま", "context": "Normal", "expect_text_at": (ci, rb["candidates"][ci]["text"])}, {"kind": "confirm", "session": nconv, "cid": str(ci), "text": rb["candidates"][ci]["text"]}]
             nconv += 1
             ex.append((len(rq) - 1, want, rb["candidates"][ci]["text"], list(learned)))
             learned.append(want)
@@ -183,8 +183,10 @@ def run(tier, seed):
             res.violation(what, {"base": hr.base, "requests": hr.requests, "detail": detail})
         rqs = [r for r in hr.requests if r["kind"] != "malformed"]
         # the library pass and the server must be talking about the same candidate
-        in_step = all(obs is not None and len(obs["texts"]) > rq["expect_text_at"][0] and obs["texts"][rq["expect_text_at"][0]] == rq["expect_text_at"][1]
-                      for (ev, obs), rq in zip(hr.events, rqs) if "expect_text_at" in rq)
+        nxt = {i: rqs[i + 1] for i in range(len(rqs) - 1)}
+        in_step = all(obs is not None and ((len(obs["texts"]) > rq["expect_text_at"][0] and obs["texts"][rq["expect_text_at"][0]] == rq["expect_text_at"][1])
+                                           or ("text" in nxt.get(i, {}) and rq["expect_text_at"][1] in obs["texts"]))
+                      for i, ((ev, obs), rq) in enumerate(zip(hr.events, rqs)) if "expect_text_at" in rq)
         if not in_step:
             continue
         for ci, comp, text, before in exp:
